@@ -46,12 +46,19 @@ type Scenario struct {
 }
 
 func (s *Scenario) embClass() string {
+	multi := ""
+	if len(s.P) > 1 {
+		multi = "+multi" // more than one contour
+	}
+	if s.Open {
+		multi += "+open"
+	}
 	for _, e := range latgeo.Symmetries {
 		if e.Name == s.Emb.Name {
-			return ""
+			return multi
 		}
 	}
-	return "~float"
+	return multi + "~float"
 }
 
 func (s *Scenario) tag() string {
